@@ -31,7 +31,9 @@ theorem normal_integral {σ : ℝ} (hσ : 0 < σ) : ∫ x, normalR σ x = 1 := b
   simp only [normalR_eq]
   rw [integral_const_mul, integral_gaussian]
   have h2 : π / (1 / (2 * σ ^ 2)) = 2 * π * σ ^ 2 := by field_simp
-  rw [h2, Real.sqrt_mul (by positivity), Real.sqrt_sq (le_of_lt hσ)]
+  have h3 : √(2 * π * σ ^ 2) = √(2 * π) * σ := by
+    rw [Real.sqrt_mul (show (0 : ℝ) ≤ 2 * π by positivity) (σ ^ 2), Real.sqrt_sq (le_of_lt hσ)]
+  rw [h2, h3]
   have hs : √(2 * π) ≠ 0 := by positivity
   field_simp
 
@@ -41,7 +43,10 @@ theorem normal_nonneg {σ : ℝ} (hσ : 0 < σ) (x : ℝ) : 0 ≤ normalR σ x :
 theorem cauchyR_eq {γ : ℝ} (hγ : γ ≠ 0) (x : ℝ) : cauchyR γ x = (1 / (π * γ)) * (1 + (x / γ) ^ 2)⁻¹ := by
   unfold cauchyR Dos.cauchyDist
   have hπ : π ≠ 0 := Real.pi_ne_zero
-  have h1 : x * x + γ * γ ≠ 0 := by positivity
+  have h1 : x * x + γ * γ ≠ 0 := by
+    have := mul_self_nonneg x
+    have := mul_self_pos.mpr hγ
+    linarith
   have h2 : 1 + (x / γ) ^ 2 ≠ 0 := by positivity
   field_simp
   ring
@@ -69,11 +74,11 @@ theorem smearingDos_integral (nq nb : Nat) (w : Fin nq → ℝ) (hw : ∑ q, w q
   simp only [sumFin_eq]
   have hterm : ∀ q b, Integrable (fun ω => δ (ν q b - ω)) := fun q b => hδ.comp_sub_left (ν q b)
   have hint : ∀ q b, ∫ ω, δ (ν q b - ω) = 1 := fun q b => by rw [integral_sub_left_eq_self δ volume (ν q b), h1]
-  rw [integral_div, integral_finset_sum _ (fun q _ => (integrable_finset_sum _ (fun b _ => hterm q b)).const_mul (w q))]
+  rw [integral_div, integral_finsetSum _ (fun q _ => (integrable_finsetSum _ (fun b _ => hterm q b)).const_mul (w q))]
   simp only [integral_const_mul]
   have : ∀ q, ∫ ω, ∑ b, δ (ν q b - ω) = nb := by
     intro q
-    rw [integral_finset_sum _ (fun b _ => hterm q b)]
+    rw [integral_finsetSum _ (fun b _ => hterm q b)]
     simp [hint]
   simp only [this]
   rw [← Finset.sum_mul]
